@@ -6,6 +6,7 @@ ID=$1
 git merge --no-ff --no-commit prop-$ID >/dev/null 2>&1 || true
 # generated files: take ours then regenerate
 for f in MANIFEST.json known_findings.json; do git checkout --ours -- $f 2>/dev/null || true; done
+for f in $(git diff --name-only --diff-filter=U | grep -e '^evidence/' -e '^coq/Facts/'); do git checkout --theirs -- $f 2>/dev/null && git add $f || git rm -q --cached $f; done
 git rm -q --cached coq/_CoqProject 2>/dev/null || true; git checkout --ours -- .gitignore 2>/dev/null || true
 if git diff --name-only --diff-filter=U | grep -v -e MANIFEST.json -e known_findings.json -e _CoqProject -e .gitignore | grep .; then echo "CONFLICTS above"; exit 1; fi
 python3 tools/gen_manifest.py
